@@ -77,6 +77,9 @@ C18-4 e_owned_load_then_parse
 C18-5 e_owned_load1
 C20-1 u_error_syntax_n6
 C20-2 m_object_iter_latch
+C20-3 k_position_from_index_n8
+C20-4 m_stream_latch_n5
+C20-5 u_error_classify
 revert-F1a m_depth_seq
 revert-F1b m_skip_one_dispatch_n7
 revert-F2 u_skip_string_n8
@@ -89,6 +92,7 @@ revert-F9 u_parse_number_int_len1_12
 revert-F10 m_get_object_checked_n6
 revert-F11 m_skip_one_dispatch_n7
 revert-F12 u_owned_clone_loaded_keeps_raw
+revert-F13 u_root_value_padding_overrun
 LIST
 wait
 python3 tools/seeded_table.py
